@@ -3,7 +3,7 @@
    schema-location attribute of the root of the file's model), OpSerializeElem.  Pending: OpLoad. *)
 From AV Require Import Base.Bytes Base.Outcome Hash.HashModel Tree.Heap Tree.Ops Tree.Script Tree.Inv
   Tree.Sort Tree.Copy Tree.Load Tree.Compat Tree.Serialize Tree.Script2
-  Tree.CopyProofsW Tree.CopyProofsDefs Tree.CopyProofsIrp Tree.CopyProofsIrpLib Tree.CopyProofsIrpOps Tree.CopyProofsIndep.
+  Tree.CopyProofsW Tree.CopyProofsDefs Tree.CopyProofsIrp Tree.CopyProofsIrpLib Tree.CopyProofsGrow Tree.CopyProofsIrpOps Tree.CopyProofsIndep.
 From Coq Require Import Lia PeanoNat.
 Open Scope string_scope.
 Open Scope list_scope.
@@ -48,10 +48,10 @@ Proof.
   destruct (G _ _ H) as [H1|[]]. exact H1.
 Qed.
 
-#[local] Hint Extern 2 (irpq _ _ _ _ (raw_set_attribute _ _ _ _ _ _)) => (apply irp_raw_set_attribute; np) : irp.
-#[local] Hint Extern 2 (irpq _ _ _ _ (m_create_file _ _ _ _)) => (apply irpq_create_file; np) : irp.
-#[local] Hint Extern 2 (irpq _ _ _ _ (new_model _ _)) => (apply irpq_new_model) : irp.
-#[local] Hint Extern 2 (irpq _ _ _ _ (e_create_copied_sub_element _ _ _ _)) => (apply irpq_e_copy; np) : irp.
+#[local] Hint Extern 2 (irpqL _ _ _ _ _ _ _ (raw_set_attribute _ _ _ _ _ _)) => (apply irp_raw_set_attribute; np) : irp.
+#[local] Hint Extern 2 (irpqL _ _ _ _ _ _ _ (m_create_file _ _ _ _)) => (apply irpq_create_file; np) : irp.
+#[local] Hint Extern 2 (irpqL _ _ _ _ _ _ _ (new_model _ _)) => (apply irpq_new_model) : irp.
+#[local] Hint Extern 2 (irpqL _ _ _ _ _ _ _ (e_create_copied_sub_element _ _ _ _)) => (apply irpq_e_copy; np) : irp.
 
 Lemma nth_opt_firstn_lt {A} (l : list A) n k : (k < n)%nat -> nth_opt (firstn n l) k = nth_opt l k.
 Proof.
@@ -75,32 +75,75 @@ Variable root_attrs : list (N * cdata).
 Notation run2 := (run_op2 T tab_el tab_at tab_en check_fn float_parse float_fmt LATEST name_index name_definition_ref
                           attr_schema_location root_attrs).
 
+(* ---------- worlds only grow ---------- *)
+Lemma grows_keyed_loop rec ty : (forall c, grows (rec c)) -> forall l, grows (keyed_loop T rec ty l).
+Proof. intros Hr. induction l as [|[c|d] l IH]; cbn [keyed_loop]; grows_tac. Qed.
+Lemma grows_iter_loop rec : (forall c, grows (rec c)) -> forall l, grows (iter_loop rec l).
+Proof. intros Hr. induction l as [|[c|d] l IH]; cbn [iter_loop]; grows_tac. Qed.
+Hint Resolve grows_keyed_loop grows_iter_loop : grows.
+Lemma grows_sort_f fuel : forall i, grows (sort_f T tab_el tab_at tab_en name_index name_definition_ref isort_poly fuel i).
+Proof. induction fuel as [|f IH]; intros i; cbn [sort_f]; grows_tac. Qed.
+Hint Resolve grows_sort_f : grows.
+Lemma grows_e_sort i : grows (e_sort T tab_el tab_at tab_en name_index name_definition_ref i).
+Proof. unfold e_sort, e_sort_with. grows_tac. Qed.
+Lemma grows_m_sort m : grows (m_sort T tab_el tab_at tab_en name_index name_definition_ref m).
+Proof. unfold m_sort, m_sort_with, e_sort_with. grows_tac. Qed.
+Lemma grows_dup_files c : forall files fm, grows (dup_files T c files fm).
+Proof. induction files as [|f files IH]; intros fm; cbn [dup_files]; grows_tac. Qed.
+Lemma grows_dup_children croot : forall items, grows (dup_children T LATEST croot items).
+Proof. induction items as [|[e|d] items IH]; cbn [dup_children]; grows_tac. Qed.
+Lemma grows_dup_membership fm : forall oids cids, grows (dup_membership fm oids cids).
+Proof. induction oids as [|o oids IH]; intros [|c cids]; cbn [dup_membership]; grows_tac. Qed.
+Hint Resolve grows_dup_files grows_dup_children grows_dup_membership : grows.
+Lemma grows_duplicate_body m : grows (m_duplicate_body T LATEST root_attrs m).
+Proof. unfold m_duplicate_body. grows_tac. Qed.
+Lemma ro_check_compat f v : ro (f_check_version_compatibility T f v).
+Proof. intros w r w' H. unfold f_check_version_compatibility in H. destruct (f_check T w f v); try discriminate H. injection H as _ <-. reflexivity. Qed.
+Lemma grows_set_version f v : grows (f_set_version T f v).
+Proof. unfold f_set_version. apply grows_bind; [apply grows_ro; apply ro_check_compat|intros [errs mask]]. grows_tac. Qed.
+Lemma ro_e_serialize h : ro (e_serialize T tab_el tab_at tab_en float_fmt h).
+Proof. intros w r w' H. unfold e_serialize in H. destruct (ser_heap _ _ _ _ _ _ _ _ _ _ _); try discriminate H. injection H as _ <-. reflexivity. Qed.
+
+Lemma ro_ser_tail ff i (hdr : list N) :
+  ro (fun w => match ser_heap T tab_el tab_at tab_en float_fmt (fuel_of w) w ff i 0 false with
+               | Val s => Val (OK (hdr ++ s), w) | Pan s => Pan s | Fuel => Fuel end).
+Proof. intros w r w' H. cbv beta in H. destruct (ser_heap _ _ _ _ _ _ _ _ _ _ _); try discriminate H. injection H as _ <-. reflexivity. Qed.
+Lemma grows_ser_tail ff i (hdr : list N) :
+  grows (fun w => match ser_heap T tab_el tab_at tab_en float_fmt (fuel_of w) w ff i 0 false with
+                  | Val s => Val (OK (hdr ++ s), w) | Pan s => Pan s | Fuel => Fuel end).
+Proof. apply grows_ro. apply ro_ser_tail. Qed.
+Hint Resolve grows_ser_tail : grows.
+Lemma grows_f_serialize f : grows (f_serialize T tab_el tab_at tab_en check_fn float_fmt attr_schema_location f).
+Proof. unfold f_serialize. grows_tac. Qed.
+
 Section Region.
 Variable P : id -> Prop.
 Variable PM : N -> Prop.
 Variable PF : N -> Prop.
-Notation irp := (CopyProofsIrp.irpq P PM PF (fun _ => True)).
-Notation irpq := (irpq P PM PF).
+Section Bounds.
+Variables L LM LF : N.
+Notation irp := (CopyProofsIrp.irpqL P PM PF L LM LF (fun _ => True)).
+Notation irpq := (irpqL P PM PF L LM LF).
 Notation NPq := (fun c : id => ~ P c).
 
 (* ---------- sort ---------- *)
-Lemma irpq_keyed_loop rec ty : (forall c, ~ P c -> irp (rec c)) ->
+Lemma irpq_keyed_loop rec ty : (forall c, grows (rec c)) -> (forall c, ~ P c -> irp (rec c)) ->
   forall l, OutC P l -> irpq (OutP P) (keyed_loop T rec ty l).
 Proof.
-  intros Hrec. induction l as [|[c|d] l IH]; intros Hl; cbn [keyed_loop].
+  intros Hgr Hrec. induction l as [|[c|d] l IH]; intros Hl; cbn [keyed_loop].
   - apply irpq_ret. intros k c [].
-  - apply OutC_cons_elem in Hl as (Hc & Hl). eapply irpq_bind; [apply Hrec; exact Hc|]. intros _ _.
+  - apply OutC_cons_elem in Hl as (Hc & Hl). eapply irpq_bind; [apply Hrec; exact Hc|solve [grows_tac]|]. intros _ _.
     apply irpq_get; [exact Hc|]. intros cn Gcn.
-    eapply irpq_bind; [apply irp_ro; ro_tac|]. intros fs _. destruct fs as [[x idx]|]; [|apply irpq_panic].
-    eapply irpq_bind; [apply IH; exact Hl|]. intros more Hmore. apply irpq_ret.
+    eapply irpq_bind; [apply irp_ro; ro_tac|solve [grows_tac]|]. intros fs _. destruct fs as [[x idx]|]; [|apply irpq_panic].
+    eapply irpq_bind; [apply IH; exact Hl|solve [grows_tac]|]. intros more Hmore. apply irpq_ret.
     intros k j [H|H]; [injection H as _ <-; exact Hc|exact (Hmore k j H)].
   - apply OutC_cons_data in Hl. apply IH. exact Hl.
 Qed.
-Lemma irp_iter_loop rec : (forall c, ~ P c -> irp (rec c)) -> forall l, OutC P l -> irp (iter_loop rec l).
+Lemma irp_iter_loop rec : (forall c, grows (rec c)) -> (forall c, ~ P c -> irp (rec c)) -> forall l, OutC P l -> irp (iter_loop rec l).
 Proof.
-  intros Hrec. induction l as [|[c|d] l IH]; intros Hl; cbn [iter_loop].
+  intros Hgr Hrec. induction l as [|[c|d] l IH]; intros Hl; cbn [iter_loop].
   - apply irpq_ret. exact I.
-  - apply OutC_cons_elem in Hl as (Hc & Hl). eapply irpq_bind; [apply Hrec; exact Hc|]. intros _ _. apply IH. exact Hl.
+  - apply OutC_cons_elem in Hl as (Hc & Hl). eapply irpq_bind; [apply Hrec; exact Hc|solve [grows_tac]|]. intros _ _. apply IH. exact Hl.
   - apply OutC_cons_data in Hl. apply IH. exact Hl.
 Qed.
 
@@ -109,16 +152,16 @@ Lemma irp_sort_f fuel : forall i, ~ P i ->
 Proof.
   induction fuel as [|f IH]; intros i Hi; cbn [sort_f]; [apply irpq_fuel|].
   apply irpq_get; [exact Hi|]. intros n Gn.
-  eapply irpq_bind; [apply irp_ro; ro_tac|]. intros mode _.
+  eapply irpq_bind; [apply irp_ro; ro_tac|solve [grows_tac]|]. intros mode _.
   destruct ((mode =? MCharacters) || (mode =? MMixed)); [apply irpq_ret; exact I|].
-  eapply irpq_bind; [apply irp_ro; ro_tac|]. intros ordered _.
+  eapply irpq_bind; [apply irp_ro; ro_tac|solve [grows_tac]|]. intros ordered _.
   destruct (negb ordered && (1 <? N.of_nat (List.length (n_content n)))).
-  - eapply irpq_bind; [apply irpq_keyed_loop; [exact IH|exact (GoodN_OutC P PM n Gn)]|]. intros keyed Hk.
-    apply irpq_wget. intros w0. eapply irpq_bind; [apply irp_ro; ro_tac|]. intros _ _.
+  - eapply irpq_bind; [apply irpq_keyed_loop; [apply grows_sort_f|exact IH|exact (GoodN_OutC P PM n Gn)]|solve [grows_tac]|]. intros keyed Hk.
+    apply irpq_wget. intros w0. eapply irpq_bind; [apply irp_ro; ro_tac|solve [grows_tac]|]. intros _ _.
     apply irp_modify_node; [exact Hi|]. intros n' Gn'. destruct Gn' as (G1 & G2 & G3).
     split; [|split; [exact G2|exact G3]]. cbn [n_content set_content]. intros c Hc.
     apply in_map_iff in Hc as ((k & j) & [= <-] & Hin). apply in_isort in Hin. exact (Hk k j Hin).
-  - apply irp_iter_loop; [exact IH|exact (GoodN_OutC P PM n Gn)].
+  - apply irp_iter_loop; [apply grows_sort_f|exact IH|exact (GoodN_OutC P PM n Gn)].
 Qed.
 
 Lemma irp_e_sort i : ~ P i -> irp (e_sort T tab_el tab_at tab_en name_index name_definition_ref i).
@@ -130,20 +173,14 @@ Proof.
 Qed.
 
 (* ---------- file version, compatibility check, serialization ---------- *)
-Lemma ro_check_compat f v : ro (f_check_version_compatibility T f v).
-Proof. intros w r w' H. unfold f_check_version_compatibility in H. destruct (f_check T w f v); try discriminate H. injection H as _ <-. reflexivity. Qed.
 Lemma irp_set_version f v : ~ PF f -> irp (f_set_version T f v).
 Proof.
-  intros Hf. unfold f_set_version. eapply irpq_bind; [apply irp_ro; apply ro_check_compat|]. intros [errs mask] _.
+  intros Hf. unfold f_set_version. eapply irpq_bind; [apply irp_ro; apply ro_check_compat|solve [grows_tac]|]. intros [errs mask] _.
   irp_tac.
 Qed.
-Lemma ro_e_serialize h : ro (e_serialize T tab_el tab_at tab_en float_fmt h).
-Proof. intros w r w' H. unfold e_serialize in H. destruct (ser_heap _ _ _ _ _ _ _ _ _ _ _); try discriminate H. injection H as _ <-. reflexivity. Qed.
 Lemma irp_f_serialize f : ~ PF f -> irp (f_serialize T tab_el tab_at tab_en check_fn float_fmt attr_schema_location f).
 Proof.
-  intros Hf. unfold f_serialize. irp_tac.
-  intros w r w' S E. destruct (ser_heap _ _ _ _ _ _ _ _ _ _ _); try discriminate E. injection E as <- <-.
-  split; [exact S|]. split; [apply Same_refl|auto].
+  intros Hf. unfold f_serialize. irp_tac. apply irp_ro. apply ro_ser_tail.
 Qed.
 
 (* ---------- duplicate ---------- *)
@@ -151,43 +188,50 @@ Lemma irp_dup_files c : ~ PM c -> forall files fm, irp (dup_files T c files fm).
 Proof.
   intros Hc. induction files as [|f files IH]; intros fm; cbn [dup_files]; [apply irpq_ret; exact I|].
   apply irpq_get_file_any. intros fl.
-  eapply irpq_bind; [apply irpq_create_file; exact Hc|]. intros nf Hnf.
+  eapply irpq_bind; [apply irpq_create_file; exact Hc|solve [grows_tac]|]. intros nf Hnf.
   apply irpq_get_file; [exact Hnf|]. intros nfl Hnfl.
-  eapply irpq_bind; [apply irp_set_file; [exact Hnf|exact Hnfl]|]. intros _ _. apply IH.
+  eapply irpq_bind; [apply irp_set_file; [exact Hnf|exact Hnfl]|solve [grows_tac]|]. intros _ _. apply IH.
 Qed.
 Lemma irp_dup_children croot : ~ P croot -> forall items, irp (dup_children T LATEST croot items).
 Proof.
   intros Hc. induction items as [|[e|d] items IH]; cbn [dup_children]; [apply irpq_ret; exact I| |exact IH].
-  eapply irpq_bind; [apply irpq_e_copy; exact Hc|]. intros _ _. exact IH.
+  eapply irpq_bind; [apply irpq_e_copy; exact Hc|solve [grows_tac]|]. intros _ _. exact IH.
 Qed.
 Lemma irp_dup_membership fm : forall oids cids, OutI P cids -> irp (dup_membership fm oids cids).
 Proof.
   induction oids as [|o oids IH]; intros [|c cids] Hc; cbn [dup_membership]; try (apply irpq_ret; exact I).
   apply OutI_cons in Hc as (Hc & Hcs). apply irpq_get_any. intros on. apply irpq_wget. intros w0.
-  eapply irpq_bind; [|intros _ _; apply IH; exact Hcs]. irp_tac.
+  eapply irpq_bind; [|solve [grows_tac]|intros _ _; apply IH; exact Hcs]. irp_tac.
 Qed.
 
 Lemma irpq_duplicate_body m : irpq (fun c => ~ PM c) (m_duplicate_body T LATEST root_attrs m).
 Proof.
   unfold m_duplicate_body. apply irpq_get_model_any. intros x.
-  eapply irpq_bind; [apply irpq_new_model|]. intros c Hc.
+  eapply irpq_bind; [apply irpq_new_model|solve [grows_tac]|]. intros c Hc.
   apply irpq_get_any. intros rn. apply irpq_get_model; [exact Hc|]. intros cx Gcx.
   assert (Hroot : ~ P (m_root cx)) by exact (proj1 Gcx).
-  eapply irpq_bind; [irp_tac|]. intros _ _.
-  eapply irpq_bind; [apply irp_dup_files; exact Hc|]. intros fm _.
-  eapply irpq_bind; [apply irp_dup_children; exact Hroot|]. intros _ _.
+  eapply irpq_bind; [irp_tac|solve [grows_tac]|]. intros _ _.
+  eapply irpq_bind; [apply irp_dup_files; exact Hc|solve [grows_tac]|]. intros fm _.
+  eapply irpq_bind; [apply irp_dup_children; exact Hroot|solve [grows_tac]|]. intros _ _.
   apply irpq_wget. intros w0.
-  eapply irpq_bind; [apply irp_ro; ro_tac|]. intros oids _.
-  eapply irpq_bind; [apply irpq_dfs_ids; exact Hroot|]. intros cids Hcids.
-  eapply irpq_bind; [apply irp_dup_membership; exact Hcids|]. intros _ _. apply irpq_ret. exact Hc.
+  eapply irpq_bind; [apply irp_ro; ro_tac|solve [grows_tac]|]. intros oids _.
+  eapply irpq_bind; [apply irpq_dfs_ids; exact Hroot|solve [grows_tac]|]. intros cids Hcids.
+  eapply irpq_bind; [apply irp_dup_membership; exact Hcids|solve [grows_tac]|]. intros _ _. apply irpq_ret. exact Hc.
 Qed.
+
+End Bounds.
+
+Notation irp := (CopyProofsIrp.irpq P PM PF (fun _ => True)).
+Notation irpq := (irpq P PM PF).
 
 Lemma irpq_duplicate m : irpq (fun c => ~ PM c) (m_duplicate T tab_el tab_en check_fn LATEST root_attrs m).
 Proof.
+  assert (HB : irpq (fun c => ~ PM c) (m_duplicate_body T LATEST root_attrs m)).
+  { apply irpq_of_L. intros L LM LF. apply irpq_duplicate_body. }
   intros w r w' S E. unfold m_duplicate in E.
   destruct (m_duplicate_body T LATEST root_attrs m w) as [[[c|e] w1]| |] eqn:Eb; try discriminate E.
-  - injection E as <- <-. exact (irpq_duplicate_body m _ _ _ S Eb).
-  - injection E as <- <-. destruct (irpq_duplicate_body m _ _ _ S Eb) as (S1 & Sm1 & _).
+  - injection E as <- <-. exact (HB _ _ _ S Eb).
+  - injection E as <- <-. destruct (HB _ _ _ S Eb) as (S1 & Sm1 & _).
     destruct S as (A1 & A2 & A3 & A4 & A5 & A6). destruct S1 as (B1 & B2 & B3 & B4 & B5 & B6). destruct Sm1 as (C1 & C2 & C3 & C4 & C5 & C6).
     assert (Hm : forall k, PM k -> nth_opt (firstn (List.length (w_models w)) (w_models w1)) (N.to_nat k) = nth_opt (w_models w) (N.to_nat k)).
     { intros k Hk. destruct (A4 k Hk) as (xk & Hxk). rewrite nth_opt_firstn_lt by (eapply nth_opt_Some; eauto). auto. }
@@ -203,20 +247,22 @@ Proof.
       unfold Grow; cbn [w_next w_models w_files]. rewrite !firstn_length. repeat split; lia.
 Qed.
 
-
 (* ---------- the alphabet ---------- *)
 Theorem irp_run_op2 o : pending_indep2 o = false -> op2_apart P PM PF o -> irp (run2 o).
 Proof.
   intros Hp (Hh & Hm & Hf). destruct o; try discriminate Hp; cbn [op2_handles op2_models op2_files] in Hh, Hm, Hf; cbn [run_op2].
-  - eapply irpq_bind; [apply (irp_run_op T tab_el tab_en check_fn LATEST root_attrs P PM PF o); split; assumption|].
+  4: { intros w r w' S E. apply wbind_inv in E as [(c & w1 & E1 & E2) | (e & E1 & ->)].
+       - apply wret_inv in E2 as (-> & ->). destruct (irpq_duplicate m _ _ _ S E1) as (S1 & Sm & _). auto.
+       - destruct (irpq_duplicate m _ _ _ S E1) as (S1 & Sm & _). split; [exact S1|]. split; [exact Sm|]. intros a [=]. }
+  all: apply irpq_of_L; intros L LM LF.
+  - eapply irpq_bind; [apply (irp_run_opL T tab_el tab_en check_fn LATEST root_attrs P PM PF L LM LF o); split; assumption|solve [grows_tac]|].
     intros v _. apply irpq_ret. exact I.
-  - eapply irpq_bind; [apply irp_e_sort; apply Hh; left; reflexivity|]. intros _ _. apply irpq_ret. exact I.
-  - eapply irpq_bind; [apply irp_m_sort; apply Hm; left; reflexivity|]. intros _ _. apply irpq_ret. exact I.
-  - eapply irpq_bind; [apply irpq_duplicate|]. intros c _. apply irpq_ret. exact I.
-  - eapply irpq_bind; [apply irp_set_version; apply Hf; left; reflexivity|]. intros _ _. apply irpq_ret. exact I.
-  - eapply irpq_bind; [apply irp_ro; apply ro_check_compat|]. intros [errs mask] _. apply irpq_ret. exact I.
-  - eapply irpq_bind; [apply irp_f_serialize; apply Hf; left; reflexivity|]. intros t _. apply irpq_ret. exact I.
-  - eapply irpq_bind; [apply irp_ro; apply ro_e_serialize|]. intros t _. apply irpq_ret. exact I.
+  - eapply irpq_bind; [apply irp_e_sort; apply Hh; left; reflexivity|solve [grows_tac]|]. intros _ _. apply irpq_ret. exact I.
+  - eapply irpq_bind; [apply irp_m_sort; apply Hm; left; reflexivity|solve [grows_tac]|]. intros _ _. apply irpq_ret. exact I.
+  - eapply irpq_bind; [apply irp_set_version; apply Hf; left; reflexivity|solve [grows_tac]|]. intros _ _. apply irpq_ret. exact I.
+  - eapply irpq_bind; [apply irp_ro; apply ro_check_compat|solve [grows_tac]|]. intros [errs mask] _. apply irpq_ret. exact I.
+  - eapply irpq_bind; [apply irp_f_serialize; apply Hf; left; reflexivity|solve [grows_tac]|]. intros t _. apply irpq_ret. exact I.
+  - eapply irpq_bind; [apply irp_ro; apply ro_e_serialize|solve [grows_tac]|]. intros t _. apply irpq_ret. exact I.
 Qed.
 
 End Region.
